@@ -183,3 +183,26 @@ def thr_fraction(minlen, den):
     if minlen is None:
         return None
     return Fraction(minlen) * den
+
+
+def ccanon(text):
+    """table: number-like token -> repr(float(token)), for every candidate token of the text"""
+    import re
+    cands = set()
+    for line in text.replace("\r\n", "\n").split("\n"):
+        w = line.strip()
+        cands.add(w)
+        if "=" in w:
+            cands.add(w.split("=")[1].strip())
+    for m in re.finditer(r"[0-9.]+", text):
+        cands.add(m.group(0))
+    items = []
+    for w in sorted(cands):
+        if not w or len(w) > 40:
+            continue
+        try:
+            v = float(w)
+        except ValueError:
+            continue
+        items.append("(%s, %s)" % (core.ctext(w), core.ctext(repr(v))))
+    return core.clist(items, "(text * text)")
